@@ -983,10 +983,85 @@ def run_lifecycle(case):
     return {"behaviour": [prof, beh], "violations": viol, "stats": {"constructions": 1}}
 
 
+# =============================================================================== nested blocks shared between settings objects
+SHARE_CLASSES = ["BaseHourlySettings", "HourlyNonSolarSettings", "HourlySolarSettings"]
+SHARE_LATER = ["second_parent", "second_parent_then_store_first", "store", "store_twice", "model_validate", "copy_with_update"]
+
+
+def cases_sharing(tier):
+    out = []
+    for cls in SHARE_CLASSES:
+        for seed_a in (1, None):
+            for seed_b in (2, None, 1):
+                for blocks in (["temporal_cluster"], ["elasticnet"], ["temporal_cluster", "elasticnet"]):
+                    for source in ("fresh_block", "first_parents_block"):
+                        for later in SHARE_LATER:
+                            if not later.startswith("second_parent") and (seed_b != 2 or blocks != ["temporal_cluster"] or source != "fresh_block"):
+                                continue  # the later operation does not involve a second object: one case per (class, seed)
+                            out.append({"space": "sharing", "cls": cls, "seed_a": seed_a, "seed_b": seed_b, "blocks": blocks,
+                                        "source": source, "later": later})
+    return out
+
+
+def run_sharing(case):
+    """the seed a settings object works with (the model reads it from the nested elastic-net and clustering blocks) is the one it was
+    built with, whatever is built or stored afterwards - also when a nested block object serves two settings objects"""
+    from opendsm.eemeter.models.hourly import settings as hs
+
+    cls = getattr(hs, case["cls"])
+    block_cls = {"temporal_cluster": hs.TemporalClusteringSettings, "elasticnet": hs.ElasticNetSettings}
+
+    def seeds(o):
+        return [None if v is None else int(v) for v in (getattr(o, "_seed", None), getattr(o.elasticnet, "_seed", None), getattr(o.temporal_cluster, "_seed", None))]
+
+    kw_a = {} if case["seed_a"] is None else {"seed": case["seed_a"]}
+    kw_b = {} if case["seed_b"] is None else {"seed": case["seed_b"]}
+    try:
+        if case["source"] == "fresh_block":
+            shared = {b: block_cls[b]() for b in case["blocks"]}
+            a = cls(**shared, **kw_a)
+        else:
+            a = cls(**kw_a)
+            shared = {b: getattr(a, b) for b in case["blocks"]}
+    except Exception as e:  # noqa
+        return {"rejected": f"{type(e).__name__}: {str(e)[:80]}"}
+    s0 = seeds(a)
+    key = {"cls": case["cls"], "later": case["later"], "seeded": case["seed_a"] is not None}
+    viol = []
+    if len(set(s0)) != 1 or s0[0] is None or (case["seed_a"] is not None and s0[0] != case["seed_a"]):
+        viol.append({"clause": "effective_seed_not_the_given_seed", "key": key, "detail": f"{case}: (own, elasticnet, clustering) seeds {s0}"})
+    info = hs.ModelInfo(warnings=[], disqualification=[], error={}, baseline_timezone="UTC", version="x")
+    later = case["later"]
+    b = None
+    if later.startswith("second_parent"):
+        b = cls(**shared, **kw_b)
+        if later.endswith("store_first"):
+            hs.SerializeModel(settings=a, info=info)
+    elif later.startswith("store"):
+        for _ in range(2 if later == "store_twice" else 1):
+            hs.SerializeModel(settings=a, info=info)   # what HourlyModel.to_dict() does with its settings object
+    elif later == "model_validate":
+        cls.model_validate(a)
+    else:
+        a.model_copy(update={"train_features": ["temperature"]})
+    s1 = seeds(a)
+    if s1 != s0:
+        viol.append({"clause": "effective_seed_changed_by_later_use", "key": key,
+                     "detail": f"{case}: (own, elasticnet, clustering) seeds of the first settings object {s0} -> {s1} after {later}"})
+    if b is not None:
+        sb = seeds(b)
+        if len(set(sb)) != 1 or sb[0] is None or (case["seed_b"] is not None and sb[0] != case["seed_b"]):
+            viol.append({"clause": "effective_seed_not_the_given_seed", "key": dict(key, object="second"),
+                         "detail": f"{case}: second object's (own, elasticnet, clustering) seeds {sb}"})
+    return {"behaviour": [case["cls"], later, case["seed_a"] is not None, case["seed_b"], s1 == s0], "violations": viol, "stats": {"constructions": 2 if b is not None else 1}}
+
+
 def run_case(case):
     sp = case["space"]
     if sp == "lifecycle":
         return run_lifecycle(case)
+    if sp == "sharing":
+        return run_sharing(case)
     if sp in ("single", "cluster", "pairs", "flagpairs"):
         return run_overrides(case)
     if sp == "defaults":
@@ -1004,7 +1079,7 @@ def run(tier, seed):
     env.setup_env()
     env.quiet_library()
     spaces = [("defaults", cases_defaults), ("single", cases_single), ("cluster", cases_cluster),
-              ("assign", cases_assign), ("stored", cases_stored), ("flagpairs", cases_flagpairs), ("lifecycle", cases_lifecycle)]
+              ("assign", cases_assign), ("stored", cases_stored), ("flagpairs", cases_flagpairs), ("lifecycle", cases_lifecycle), ("sharing", cases_sharing)]
     if tier == "thorough":
         spaces.append(("pairs", cases_pairs))
     exps = []
